@@ -5,6 +5,9 @@ from __future__ import annotations
 import ast
 
 CONSTRUCTS = {
+    # statements whose later lines are indented less than their first line, right after an import inside a block
+    "import_then_dedented_literal": 'if flag:\n    import os\n    print("""\nabc""")\n',
+    "import_then_dedented_brackets": 'def f():\n    import json\n\n\n\n    x = [\n  1,\n  2]\n    text = """\nleft\n"""\n    return x, text, json\n',
     "match": "match command.split():\n    case [action]:\n        print(action)\n    case [action, obj]:\n        print(action, obj)\n    case Point(x=0, y=0) | {'k': 1, **rest}:\n        print('origin')\n    case [1, 2, *others] if others:\n        print(others)\n    case str() as s:\n        print(s)\n    case _:\n        pass\n",
     "type_alias": "type Point = tuple[float, float]\ntype Gen[T] = list[T]\n",
     "pep695": "def first[T](xs: list[T]) -> T:\n    return xs[0]\n\n\nclass Box[T, *Ts, **P]:\n    def get(self) -> T:\n        return self.v\n",
